@@ -129,7 +129,8 @@ def judge(chk, part, subcmd, extra_args, report, origin="TLC-enumerated case"):
         div = {"kind": g["kind"], "detail": ex.get("detail", ""), "diff": ex.get("diff") or []}
         kf = vlib.match_known(PROP, div)
         if kf:
-            chk.known.append((kf["id"], "%s: %s [%d cases in this run; smallest: %s]" % (kf["id"], kf["what"], g["count"], ex.get("detail", "")[:400])))
+            if kf["id"] not in [k for k, _ in chk.known]:
+                chk.known.append((kf["id"], "%s: %s [e.g. %s]" % (kf["id"], kf["what"], ex.get("detail", "")[:400])))
             chk.cov.setdefault("known_finding_cases", {})
             chk.cov["known_finding_cases"][kf["id"]] = chk.cov["known_finding_cases"].get(kf["id"], 0) + g["count"]
             continue
@@ -142,6 +143,8 @@ def judge(chk, part, subcmd, extra_args, report, origin="TLC-enumerated case"):
             g["sig"], g["count"], origin, part, e.get("detail", ""), "\n".join(e.get("diff") or []))
         chk.violation(what, {"property": PROP, "part": subcmd, "args": list(extra_args), "case": e.get("case"),
                              "kind": g["kind"], "sig": g["sig"], "detail": e.get("detail", "")})
+    if report.get("skipped") and not any(g["kind"] == "timeout" for g in report.get("groups", [])):
+        chk.infra.append("%s/%s: %d cases were skipped without a recorded timeout" % (part, subcmd, report["skipped"]))
     if mism and not chk.violations:
         for g in mism[:3]:
             e = g["examples"][0]
@@ -203,8 +206,9 @@ def part_split(binary, tier):
         if quick:
             jobs.append(ex.submit(split_full, binary, "Split_all_len5", split_consts("c_StratsAll", 5, "c_AlphaQuick"), 6, 1500))
         else:
-            for s, c in STRATS.items():
-                jobs.append(ex.submit(split_full, binary, "Split_%s_len7" % s, split_consts(c, 7, "c_AlphaQuick" if s in ("fixed", "chunker") else "c_Alpha"), 4, 6000))
+            for s in ("code", "recursive", "markdown", "fixed", "chunker"):   # the slowest first
+                jobs.append(ex.submit(split_full, binary, "Split_%s_len7" % s, split_consts(STRATS[s], 7, "c_AlphaQuick" if s in ("fixed", "chunker") else "c_Alpha"),
+                                      6 if s == "code" else 4, 6000))
             for s in ("code", "markdown"):
                 jobs.append(ex.submit(split_full, binary, "Split_%s_wide_len5" % s, split_consts(STRATS[s], 5, "c_AlphaWide"), 4, 6000))
         tracedir = vlib.scratch("c20-trace-")
@@ -575,7 +579,8 @@ def run(tier):
                 model_cases += runs
                 cov["evaluations"] += rep.get("checks", 0)
                 cov["distinct_nontrivial"] += rep.get("nontrivial", 0)
-                cov["samples"] += rep.get("samples", [])[:2]
+                if sum(1 for x in cov["samples"] if x.get("part") == p.name) < 2:
+                    cov["samples"] += [dict(x, part=p.name) for x in rep.get("samples", [])[:1]]
         info = dict(p.info)
         info.pop("vocab", None)
         cov["parts"][p.name] = info
